@@ -314,7 +314,7 @@ def consumers_clear(ctx, db):
         for tr in trs:
             nz = None
             for it in tr:
-                if it.k == 'branch' and '_count_flag' in (it.path or ''):
+                if it.k == 'branch' and it.get('depth', 0) == 0 and '_count_flag' in (it.path or ''):
                     nl = nullness(it); nz = nl[1] if nl else None
             s = all_indices(tr, callee_is('cocls::suspend_point::suspend_now', 'cocls::suspend_point::clear'))
             if nz is True:
@@ -474,8 +474,8 @@ def self_inclusion(ctx, db):
                 if it.k == 'call' and it.get('depth', 0) == 0 and norm(it.get('callee') or '').endswith('::push') and any((a.get('path') or '') in (hname, 'ctor(%s)' % hname) for a in it.get('args', [])):
                     g = None
                     for b in reversed(tr[:i]):
-                        if b.k == 'branch' and b.get('depth', 0) == 0 and re.fullmatch(r'local:\w+', b.get('opath') or ''):
-                            g = b.get('opath'); break
+                        if b.k == 'branch' and b.get('depth', 0) == 0 and re.search(r'local:\w+', b.get('opath') or ''):
+                            g = re.search(r'local:\w+', b.get('opath')).group(0); break
                     if g is None:
                         unguarded = unguarded or tr
                     else:
